@@ -80,6 +80,15 @@ func (s *c19Subject) eval(k int) string {
 		k = k % len(s.c.Vars)
 		v, err := s.calc.EvaluateUsingVariablesAndFunctions(vc, fl)
 		out := resultRepr(v, err)
+		if v != nil && err == nil {
+			// the caller files the result as the value of a variable in a collection of its own and later clears that
+			// collection's values (a pipeline stage handing its result on): the parsed instance and the variables it was
+			// evaluated with stay what they were
+			keep := variables.NewVariableCollection()
+			keep.Add(variables.NewVariable("stage", variants.EmptyVariant()))
+			keep.FindByName("stage").SetValue(v)
+			keep.ClearValues()
+		}
 		// evaluation must not modify the variable values either
 		for i, b := range s.c.Vars[k] {
 			if got := fromVariant(vc.Get(i).Value()); !equalVal(got, b.V) {
@@ -689,5 +698,50 @@ func TestC19_EnumInstanceIsolation(t *testing.T) {
 	}
 	if variants.Empty.Type() != variants.Null {
 		rec.Fail(evid.F("shared-empty-variant-modified", "variants.Empty is %s", fromVariant(variants.Empty)), c19Case{Kind: "isolation", Text: "variants.Empty"})
+	}
+	// one calculator takes a single entry out of its own function table (each standard function in turn, the first,
+	// the last, all of them) as the first thing it does; a calculator created before and one created after evaluate
+	// the same expression before and after that and get what they got
+	probeExpr := "Max(1, 7, 3) + Min(4, 2) + Sum(1, 2, 3) + If(2 > 1, 10, 20) + Choose(2, 100, 200, 300) + Abs(0 - 5) + Array(1, 2)[1] + Trunc(Sqrt(16)) + Floor(2.5)"
+	var names []string
+	for _, f := range functions.NewDefaultFunctionCollection().GetAll() {
+		names = append(names, f.Name())
+	}
+	edits := append([]string{"#first", "#last", "#clear"}, names...)
+	for _, edit := range edits {
+		before := calculator.NewExpressionCalculator()
+		var w1, w2, w3 string
+		if g := guard(func() {
+			before.SetExpression(probeExpr)
+			v, e := before.Evaluate()
+			w1 = resultRepr(v, e)
+			a := calculator.NewExpressionCalculator()
+			fc := a.DefaultFunctions()
+			switch edit {
+			case "#first":
+				fc.Remove(0)
+			case "#last":
+				fc.Remove(fc.Length() - 1)
+			case "#clear":
+				fc.Clear()
+			default:
+				fc.RemoveByName(strings.ToLower(edit))
+			}
+			v, e = before.Evaluate()
+			w2 = resultRepr(v, e)
+			after := calculator.NewExpressionCalculator()
+			after.SetExpression(probeExpr)
+			v, e = after.Evaluate()
+			w3 = resultRepr(v, e)
+		}); g != nil {
+			rec.Fail(g, c19Case{Kind: "isolation", Text: "calculator functions " + edit})
+			continue
+		}
+		rec.Case("isolation:functions:"+edit, true, func() interface{} {
+			return "another calculator removes " + edit + " from its own function table between two evaluations of " + probeExpr
+		})
+		if w1 != w2 || w1 != w3 || strings.HasPrefix(w1, "error") {
+			rec.Fail(evid.F("instances-share-function-table", "%q evaluates to %s; after ANOTHER calculator removed %s from its own function table the same calculator gives %s and a new calculator %s", probeExpr, w1, edit, w2, w3), c19Case{Kind: "isolation", Text: "calculator functions " + edit})
+		}
 	}
 }
